@@ -1708,12 +1708,12 @@ def real_samples(
 
     if user_specified_bounds:
         if min_value >= dtype(0):
-            start, end = min_value.view(utype), max_value.view(utype)
+            start, end = abs(min_value).view(utype), max_value.view(utype)
             step = int(end - start)
             r = (start + numpy.array([i // (num - 1) for i in range(0, num * step, step)], dtype=utype)).view(dtype)
             assert r.size == num
         elif max_value <= -dtype(0):
-            start, end = max_value.view(utype), min_value.view(utype)
+            start, end = (-abs(max_value)).view(utype), min_value.view(utype)
             step = int(end - start)
             r = (start + numpy.array([i // (num - 1) for i in range(0, num * step, step)], dtype=utype)).view(dtype)
             assert r.size == num
